@@ -2,7 +2,7 @@
    with which text - the tie between the REAL setters and the operation sequences the theorems of
    Properties_C03_serializer.v are about.
 
-     settrace <hash|search|port|username|password> <url token> <value token>
+     settrace <hash|search|port|username|password|host|hostname> <url token> <value token>
 
    Model side: the url is parsed by the Standard's parser, the record [u'] the Standard's setter produces is
    computed (Spec.Api.apply_setter), and the expected call sequence is derived from it:
@@ -12,6 +12,8 @@
      port     digits, in range: start_part(PORT), decimal text of the port, save_part, set_flag(PORT_FLAG), or
               clear_part(PORT) when it is the scheme's default; empty value: clear_part(PORT); failure: no call
      username / password: start_part, the encoded text, save_part
+     host / hostname (list path, scheme other than file, value = a non-empty host without port): hostStart, the
+              serialized host of u', hostDone(host type); a value the host parser rejects: no call
    The line also carries the representation that [Impl.Serializer.run] reaches from [repr_of u] by that sequence
    (normalised with [norm_tail]) and whether it is the representation of u' (rec=1).
 
@@ -43,6 +45,8 @@ Definition op_tok (o : sop) : str :=
   | OAppend t => lit "a:" ++ hx t
   | OClearPart k => lit "cl" ++ dec_str (N.of_nat k)
   | OSetFlag f => lit "fl" ++ dec_str f
+  | OHostStart => lit "hs"
+  | OHostDone t => lit "hd" ++ dec_str t
   | _ => lit "??"
   end.
 Fixpoint ops_str (l : list sop) : str :=
@@ -95,6 +99,24 @@ Definition expected_ops (w : setter) (u : url) (e : enc) (units : list N) : opti
                | _ => Some ([], u')
                end
            end
+  | SHost | SHostname =>
+      (* supported form: URL with a list path and a scheme other than file; a value whose host part is not empty and is
+         not followed by a port (no ':' outside brackets is checked by the generator; a value with ':' is reported as
+         unsupported).  Then the only thing that can fail is the host parser, which writes nothing before it fails. *)
+      let v := decode_for_parser false e units in
+      if has_opaque_path u || is_file u || existsbN (fun c => c =? 58) v then None
+      else match v with
+           | [] => None
+           | c0 :: _ =>
+               if (c0 =? 47) || (c0 =? 63) || (c0 =? 35) || (c0 =? 92) then None else
+               match p_override ops v u (match w with SHost => Host | _ => Hostname end) with
+               | POk u2 => match uhost u2 with
+                           | Some H => Some ([OHostStart; OAppend (host_serialize H); OHostDone (host_type_num H)], u')
+                           | None => None
+                           end
+               | _ => Some ([], u')
+               end
+           end
   | _ => None
   end.
 
@@ -115,7 +137,9 @@ Definition trace_line (line : str) : option str :=
                       let r := norm_tail_m (s_r (run true (init_sst (repr_of u) (is_file u)) ops)) in
                       (* clear_part leaves the flag to the caller only for set_flag; potentially_strip is not a call:
                          the representation is compared only when the sequence is the whole effect of the setter *)
-                      let whole := match ops with [OClearPart _] => negb (has_opaque_path u) | _ => true end in
+                      (* an empty sequence is a setter that failed or was ignored: nothing to compare; the host sequence is the
+                         whole effect only when no "/." prefix rule or port is involved, which norm_tail_m / repr_of cover *)
+                      let whole := match ops with [OClearPart _] => negb (has_opaque_path u) | [] => false | _ => true end in
                       (* set_flag is not virtual: the driver sees it only as a bit that was not set before *)
                       let visible := filter (fun o => match o with OSetFlag f => N.land (flags_of u) f =? 0 | _ => true end) ops in
                       Some (lit "settrace" ++ ops_str visible ++ lit " | " ++
